@@ -21,6 +21,44 @@ variable (U : UnicodeOps) [LawfulUnicode U]
 
 /-- everything `parsePre` returns: a valid type substring, qualifiers satisfying the invariant with
 non-empty values, a well-formed subpath, nothing else set -/
+theorem splitSubpath_ok {s s' sub : Str} (h : splitSubpath s = .ok (s', sub)) : SubWF sub := by
+  unfold splitSubpath at h
+  split at h
+  · split at h
+    · simp at h
+    · rename_i d hd
+      simp at h
+      obtain ⟨_, rfl⟩ := h
+      obtain ⟨ds, _, e, hp⟩ := decodeSubpath_spec hd
+      exact ⟨ds, e, hp⟩
+  · simp at h
+    obtain ⟨_, rfl⟩ := h
+    exact SubWF_nil
+
+theorem splitQuals_ok {s s' : Str} {q : Quals} (h : splitQuals U s = .ok (s', q)) : QInv q ∧ ∀ kv ∈ q, kv.2 ≠ [] := by
+  unfold splitQuals at h
+  split at h
+  · rename_i s2 qs _
+    rcases decodeQualifiers_inv U qs with ⟨q', h1, h2, h3⟩ | ⟨e, h1⟩
+    · rw [h1] at h
+      simp at h
+      obtain ⟨_, rfl⟩ := h
+      exact ⟨h2, h3⟩
+    · rw [h1] at h
+      simp [fail] at h
+  · simp at h
+    obtain ⟨_, rfl⟩ := h
+    exact ⟨QInv_nil, by simp⟩
+
+theorem splitQuals_no_panic (s : Str) : (splitQuals U s).isPanic = false := by
+  unfold splitQuals
+  split
+  · rename_i s2 qs _
+    rcases decodeQualifiers_inv U qs with ⟨q', h1, _, _⟩ | ⟨e, h1⟩
+    · rw [h1]; rfl
+    · rw [h1]; rfl
+  · rfl
+
 theorem parsePre_ok {s ty rest : Str} {parts : Parts} (h : parsePre U s = .ok (ty, rest, parts)) :
     isValidType ty = true ∧ QInv parts.quals ∧ (∀ kv ∈ parts.quals, kv.2 ≠ []) ∧ SubWF parts.subpath ∧
     parts.ns = [] ∧ parts.name = [] ∧ parts.version = [] := by
@@ -28,7 +66,6 @@ theorem parsePre_ok {s ty rest : Str} {parts : Parts} (h : parsePre U s = .ok (t
   split at h
   · simp [fail] at h
   · rename_i s1 _
-    dsimp only at h
     split at h
     · simp [fail] at h
     · rename_i s2 subpath hr1
@@ -45,69 +82,50 @@ theorem parsePre_ok {s ty rest : Str} {parts : Parts} (h : parsePre U s = .ok (t
             · rename_i hvt
               simp at h
               obtain ⟨rfl, rfl, rfl⟩ := h
-              have hsub : SubWF subpath := by
-                split at hr1
-                · rename_i s' sub _
-                  split at hr1
-                  · simp at hr1
-                  · rename_i d hd
-                    simp at hr1
-                    obtain ⟨_, rfl⟩ := hr1
-                    obtain ⟨ds, _, e, hp⟩ := decodeSubpath_spec hd
-                    exact ⟨ds, e, hp⟩
-                · simp at hr1
-                  obtain ⟨_, rfl⟩ := hr1
-                  exact SubWF_nil
-              have hq : QInv quals ∧ ∀ kv ∈ quals, kv.2 ≠ [] := by
-                split at hr2
-                · rename_i s' qs _
-                  split at hr2
-                  · simp at hr2
-                  · rename_i q hq
-                    simp at hr2
-                    obtain ⟨_, rfl⟩ := hr2
-                    rcases decodeQualifiers_inv U qs with ⟨q', h1, h2, h3⟩ | ⟨e, h1⟩
-                    · rw [h1] at hq
-                      simp at hq
-                      subst hq
-                      exact ⟨h2, h3⟩
-                    · rw [h1] at hq
-                      simp [fail] at hq
-                · simp at hr2
-                  obtain ⟨_, rfl⟩ := hr2
-                  exact ⟨QInv_nil, by simp⟩
-              refine ⟨by simpa using hvt, hq.1, hq.2, hsub, rfl, rfl, rfl⟩
+              have hq := splitQuals_ok U hr2
+              exact ⟨by simpa using hvt, hq.1, hq.2, splitSubpath_ok hr1, rfl, rfl, rfl⟩
 
 theorem parsePre_no_panic (s : Str) : (parsePre U s).isPanic = false := by
   unfold parsePre
   split
   · rfl
-  · dsimp only
-    split
+  · split
     · rfl
-    · split
-      · rename_i f hr2
-        -- an error of the qualifier decoder is never a panic
-        split at hr2
-        · rename_i s' qs _
-          rcases decodeQualifiers_inv U qs with ⟨q', h1, _, _⟩ | ⟨e, h1⟩
-          · rw [h1] at hr2; simp at hr2
-          · rw [h1] at hr2
-            simp [fail] at hr2
-            subst hr2
-            rfl
-        · simp at hr2
-      · split
+    · rename_i s2 subpath _
+      have hp := splitQuals_no_panic U s2
+      cases hq : splitQuals U s2 with
+      | error f =>
+        rw [hq] at hp
+        cases f with
+        | err e => rfl
+        | panic x => simp [Res.isPanic] at hp
+      | ok x =>
+        obtain ⟨s3, quals⟩ := x
+        simp only
+        split
         · rfl
         · split
           · rfl
           · split <;> rfl
 
 /-- `parsePost` only fills namespace, name, version; the namespace is well-formed -/
+theorem splitNamespace_ok {s name ns : Str} (h : splitNamespace s = .ok (name, ns)) : NsWF ns := by
+  unfold splitNamespace at h
+  split at h
+  · split at h
+    · simp at h
+    · rename_i d hd
+      simp at h
+      obtain ⟨_, rfl⟩ := h
+      obtain ⟨ds, _, e, hp⟩ := decodeNamespace_spec hd
+      exact ⟨ds, e, hp⟩
+  · simp at h
+    obtain ⟨_, rfl⟩ := h
+    exact NsWF_nil
+
 theorem parsePost_ok {rest : Str} {parts parts' : Parts} (h : parsePost rest parts = .ok parts') :
     parts'.quals = parts.quals ∧ parts'.subpath = parts.subpath ∧ NsWF parts'.ns := by
   unfold parsePost at h
-  dsimp only at h
   split at h
   · simp at h
   · rename_i s1 version hr1
@@ -119,19 +137,7 @@ theorem parsePost_ok {rest : Str} {parts parts' : Parts} (h : parsePost rest par
       · rename_i n hn
         simp at h
         subst h
-        refine ⟨rfl, rfl, ?_⟩
-        split at hr2
-        · rename_i nsp np _
-          split at hr2
-          · simp at hr2
-          · rename_i d hd
-            simp at hr2
-            obtain ⟨_, rfl⟩ := hr2
-            obtain ⟨ds, _, e, hp⟩ := decodeNamespace_spec hd
-            exact ⟨ds, e, hp⟩
-        · simp at hr2
-          obtain ⟨_, rfl⟩ := hr2
-          exact NsWF_nil
+        exact ⟨rfl, rfl, splitNamespace_ok hr2⟩
 
 /-! ### the built-in shapes -/
 
